@@ -172,11 +172,17 @@ pub fn parse_duration(input: &str) -> IResult<&str, Duration> {
         nom::Err::Error(nom::error::Error::new(input, nom::error::ErrorKind::Digit))
     })?;
 
+    // checked: `value * 60` overflows u64 for large inputs (a panic with overflow
+    // checks, a silently wrapped duration without)
+    let too_large =
+        || nom::Err::Error(nom::error::Error::new(input, nom::error::ErrorKind::TooLarge));
     let duration = match unit {
         "ms" | "milliseconds" | "millisecond" => Duration::from_millis(value),
         "sec" | "second" | "seconds" => Duration::from_secs(value),
-        "min" | "minute" | "minutes" => Duration::from_secs(value * 60),
-        "hour" | "hours" => Duration::from_secs(value * 3600),
+        "min" | "minute" | "minutes" => {
+            Duration::from_secs(value.checked_mul(60).ok_or_else(too_large)?)
+        }
+        "hour" | "hours" => Duration::from_secs(value.checked_mul(3600).ok_or_else(too_large)?),
         _ => {
             return Err(nom::Err::Error(nom::error::Error::new(
                 input,
